@@ -186,6 +186,17 @@ def decorated():
         nested = exp.DataType(this=exp.DType.ARRAY, expressions=[exp.DataType(this=m, **kw)], nested=True)
         sel = exp.select(exp.cast(exp.column("a"), bare), exp.cast(exp.column("b"), param), exp.Cast(this=exp.column("c"), to=nested)).from_("t")
         out.append((f"dtype:{m.name}", sel))
+    # classes defined outside the library, some named like a core class, interleaved with their core namesakes in both orders
+    # (a class lookup memoised by bare name would hand back whichever was resolved first)
+    from vlib import userexprs as ux
+
+    a = lambda: exp.column("a")
+    out.append(("user:core_trim_first", exp.select(exp.Trim(this=a())).from_("t")))
+    out.append(("user:sub_trim_second", exp.select(ux.Trim(this=a())).from_("t")))
+    out.append(("user:sub_coalesce_first", exp.select(ux.Coalesce(this=a(), expressions=[exp.Literal.number(1)])).from_("t")))
+    out.append(("user:core_coalesce_second", exp.select(exp.Coalesce(this=a(), expressions=[exp.Literal.number(1)])).from_("t")))
+    out.append(("user:new_func", exp.select(ux.MyFunc(this=a(), expressions=[a(), exp.Literal.string("x")])).from_("t")))
+    out.append(("user:sub_column_mixed", exp.select(ux.Column(this=exp.to_identifier("a")), exp.column("b"), ux.Trim(this=exp.column("c"))).from_("t")))
     t4 = sqlglot.parse_one("SELECT 1")
     t4.selects[0].replace(exp.Literal.number(2))
     t4.add_comments(["only"])
